@@ -231,6 +231,8 @@ impl VariableMap for TransformerContext {
     }
 
     fn get_rng(&self) -> &RefCell<Pcg32> {
+        #[cfg(feature = "verif-hooks")]
+        crate::verif::rng_draw();
         &self.rng
     }
 }
@@ -403,6 +405,22 @@ impl TransformerContext {
             return Err(SvgdxError::from("Depth must be positive"));
         }
         Ok(())
+    }
+
+    #[cfg(feature = "verif-hooks")]
+    pub fn verif_probe(&self) -> crate::verif::Probe {
+        crate::verif::Probe {
+            scope_stack: self.scope_stack.len(),
+            element_stack: self.element_stack.len(),
+            current_depth: self.current_depth,
+            in_specs: self.in_specs,
+            real_svg: self.real_svg,
+        }
+    }
+
+    #[cfg(feature = "verif-hooks")]
+    pub fn verif_depth(&self) -> u32 {
+        self.current_depth
     }
 
     pub fn get_top_element(&self) -> Option<SvgElement> {
